@@ -1,6 +1,7 @@
 """C19: allocation failure propagates cleanly.  Aggregates the fault jobs of the pool executors."""
 import p_buffer
 import p_stream
+import p_strpool
 from runner import Check
 
 
@@ -17,7 +18,8 @@ class C19(p_buffer.BufferCheck):
         return [("MC_BufferPool", "MC_BufferPool_2" if tier == "quick" else "MC_BufferPool_3"),
                 ("MC_BufferImpl", "MC_BufferImpl" if tier == "quick" else "MC_BufferImpl_full"),
                 ("MC_Stream", "MC_Stream_2" if tier == "quick" else "MC_Stream_3"),
-                ("StreamImpl", "MC_StreamImpl" if tier == "quick" else "MC_StreamImpl_full")]
+                ("StreamImpl", "MC_StreamImpl" if tier == "quick" else "MC_StreamImpl_full"),
+                ("MC_StringPool", "MC_StringPool_2" if tier == "quick" else "MC_StringPool_3")]
 
     def jobs(self, tier, seed):
         J = p_buffer.fault_jobs(self, tier, seed)
@@ -25,20 +27,28 @@ class C19(p_buffer.BufferCheck):
         sc = p_stream.StreamCheck()
         J += p_stream.fault_jobs(sc, tier, seed)
         self.stream_gen = sc.gen_info
+        sp = p_strpool.StrPoolCheck()
+        J += p_strpool.fault_jobs(sp, tier, seed)
+        self.string_gen = sp.gen_info
         return J
 
     def replay_jobs(self, rej):
         if rej.get("spec") == "TraceStream":
             return p_stream.StreamCheck().replay_jobs(rej)
+        if rej.get("spec") == "TraceStrPool":
+            return p_strpool.StrPoolCheck().replay_jobs(rej)
         return p_buffer.BufferCheck.replay_jobs(self, rej)
 
     def describe(self, rej):
         if rej.get("spec") == "TraceStream":
             return p_stream.StreamCheck().describe(rej)
+        if rej.get("spec") == "TraceStrPool":
+            return p_strpool.StrPoolCheck().describe(rej)
         return p_buffer.BufferCheck.describe(self, rej)
 
     def extra_coverage(self, tier, agg):
-        return {"schedule_generation": {"buffers": getattr(self, "buffer_gen", None), "streams": getattr(self, "stream_gen", None)}}
+        return {"schedule_generation": {"buffers": getattr(self, "buffer_gen", None), "streams": getattr(self, "stream_gen", None),
+                                        "strings": getattr(self, "string_gen", None)}}
 
 
 CHECKS = {"C19": C19}
